@@ -403,6 +403,11 @@ def r9_minimum_rings(idx, r):
                 break
         r.require(bad is None, f"cartesian:{'through-centre' if through else 'offset'}:exact-for-1..300", g,
                   msg=(f"getMinimumRings({bad[0]}) {bad[1]}" if bad else ""))
+        # independent of the code: rings 1..R of a square lattice tile a (2R-1) x (2R-1) square (centre cell) or a 2R x 2R square (offset)
+        off = next(((R, sum(cap(k) for k in range(1, R + 1)), (2 * R - 1) ** 2 if through else (2 * R) ** 2) for R in range(1, 21)
+                    if sum(cap(k) for k in range(1, R + 1)) != ((2 * R - 1) ** 2 if through else (2 * R) ** 2)), None)
+        r.require(off is None, f"cartesian:{'through-centre' if through else 'offset'}:rings-tile-a-square", p,
+                  msg=(f"getPositionsInRing gives {off[1]} cells for rings 1..{off[0]}; a square of that many rings has {off[2]}" if off else ""))
 
 
 def r10_reduce_keeps_offset(idx, r):
@@ -499,7 +504,7 @@ def run(idx, chk):
     chk.run_rule("R07.6", "labels: same separator and field order on both sides, and the separator cannot occur inside a rendered field", lambda r: r6_labels(idx, r), floor=3, necessary="labels and indices are mutually inverse")
     chk.run_rule("R07.8", "theta-R-Z (affine) ring/position numbering: getIndicesFromRingAndPos o getRingPos is the identity", lambda r: r8_affine_ring_pos_pairs(idx, r), floor=1,
                  necessary="'in every grid the maps between cell indices and (ring, position) numbering are mutually inverse'")
-    chk.run_rule("R07.9", "Cartesian getMinimumRings is exact for n = 1..300, with and without a centre cell (exhaustive evaluation)", lambda r: r9_minimum_rings(idx, r), floor=2,
+    chk.run_rule("R07.9", "Cartesian getMinimumRings is exact for n = 1..300, with and without a centre cell (exhaustive evaluation)", lambda r: r9_minimum_rings(idx, r), floor=4,
                  necessary="'the least number of rings holding n cells is exact'")
     chk.run_rule("R07.10", "reduce() keeps the offset unless all three components are zero (8-pattern truth table)", lambda r: r10_reduce_keeps_offset(idx, r), floor=1,
                  necessary="'a grid rebuilt from its stored constructor arguments gives the same coordinates ... for every index'")
